@@ -76,6 +76,34 @@ def entry_guard(fn):
     return G
 
 
+def _awaits_activity(T):
+    """inside the single-flight wrapper the result of the polling call is awaited whenever it is awaitable
+    (unconditionally, or under inspect.isawaitable / gen.isawaitable) - a narrower test (iscoroutine) lets a
+    Future-returning run() escape and the flag is reset while the activity is still running"""
+    calls = [n for n in own_nodes(T.node) if isinstance(n, ast.Assign) and isinstance(n.value, ast.Call)
+             and isinstance(n.value.func, ast.Attribute) and isinstance(n.value.func.value, ast.Name)
+             and n.value.func.value.id == 'self' and isinstance(n.targets[0], ast.Name)]
+    direct = [n for n in own_nodes(T.node) if isinstance(n, ast.Await) and isinstance(n.value, ast.Call)
+              and isinstance(n.value.func, ast.Attribute) and isinstance(n.value.func.value, ast.Name) and n.value.func.value.id == 'self']
+    if direct:
+        return True, ''
+    for c in calls:
+        name = c.targets[0].id
+        awaits = [a for a in own_nodes(T.node) if isinstance(a, ast.Await) and isinstance(a.value, ast.Name) and a.value.id == name]
+        if not awaits:
+            continue
+        for a in awaits:
+            guards = [g for g in own_nodes(T.node) if isinstance(g, ast.If) and any(x is a for b in g.body for x in ast.walk(b))]
+            if not guards:
+                return True, ''
+            t = src(guards[-1].test).replace(' ', '')
+            if t in ('isawaitable(%s)' % name, 'inspect.isawaitable(%s)' % name, 'gen.isawaitable(%s)' % name):
+                return True, ''
+            return False, ('the polling activity is awaited only if %s: a run() that returns a Future (tornado coroutine) is '
+                           'not awaited and the single-flight flag is reset while it is still running' % src(guards[-1].test))
+    return False, 'the single-flight wrapper does not await the polling activity it starts'
+
+
 def writers_of(cls, field):
     out = []
     for c in cls.mro:
@@ -109,6 +137,11 @@ def check_single_flight(ctx, R, classes, note_classes=()):
                     G = entry_guard(T)
                     ok, detail = False, ''
                     if G is not None:
+                        aw_ok, aw_detail = _awaits_activity(T)
+                        if not aw_ok:
+                            R.ob('SINGLE-FLIGHT', ctx.construct(T), 'awaits-activity', False, aw_detail, ctx.where(T, T.node.lineno))
+                        else:
+                            R.ob('SINGLE-FLIGHT', ctx.construct(T), 'awaits-activity', True)
                         others = [(c, f) for c, f, _ in writers_of(cls, G) if f is not T and f.name != '__init__']
                         # subclasses of cls must not write G either
                         for sub in ctx.model.subclasses(cls):
@@ -136,6 +169,16 @@ def check_single_flight(ctx, R, classes, note_classes=()):
                             detail = ('the guard (%s) can be re-armed by %s while the previous polling loop is still '
                                       'suspended: stop(); start() then leaves two loops running'
                                       % (', '.join('self.' + g for g in gf), ', '.join(sorted(resetters))))
+                            if ok:
+                                # check-then-act: the flag must be claimed in the guarded block itself (synchronously with
+                                # the test), not later inside the scheduled coroutine
+                                claimed = any(isinstance(x, ast.Assign) and self_field(x.targets[0]) in gf
+                                              for b in guard.body for x in ast.walk(b))
+                                if not claimed:
+                                    ok = False
+                                    detail = ('the guard (%s) is tested here but only set inside the scheduled coroutine: two '
+                                              'start() calls before the callback runs both pass the test and schedule two loops'
+                                              % ', '.join('self.' + g for g in gf))
                     if cls in note_classes:
                         if not ok:
                             R.note('SINGLE-FLIGHT outside C18\'s anchors: %s schedules %s: %s' % (con, t, detail))
@@ -244,14 +287,24 @@ def check_stop_check(ctx, R, funcs):
                 continue
             if _inside_other(loops, l):
                 pass
-            ok = False
+            ok, detail = False, 'a polling loop that emits never re-reads the stop flag: stop() cannot end it'
             if isinstance(l, ast.While) and _reads_flag(l.test):
                 ok = True
-            for s in ast.walk(l):
-                if isinstance(s, ast.If) and _reads_flag(s.test) and any(isinstance(b, ast.Break) for b in s.body):
-                    ok = True
-            R.ob('STOP-CHECK', ctx.construct(fn), 'loop%d' % k, ok,
-                 'a polling loop that emits never re-reads the stop flag: stop() cannot end it', ctx.where(fn, l.lineno))
+            else:
+                # `if <flag>: break` must come before the cycle's first effect (call / await), otherwise a cycle
+                # begins after stop()
+                for s in l.body:
+                    if isinstance(s, ast.If) and _reads_flag(s.test) and any(isinstance(b, ast.Break) for b in s.body):
+                        ok = True
+                        break
+                    if any(isinstance(x, (ast.Call, ast.Await, ast.Yield)) for x in ast.walk(s)):
+                        later = any(isinstance(s2, ast.If) and _reads_flag(s2.test) and any(isinstance(b, ast.Break) for b in s2.body)
+                                    for s2 in ast.walk(l) if s2 is not s)
+                        if later:
+                            detail = ('the stop flag is only read after the cycle\'s work: a polling cycle still begins (and may '
+                                      'emit) after stop()')
+                        break
+            R.ob('STOP-CHECK', ctx.construct(fn), 'loop%d' % k, ok, detail, ctx.where(fn, l.lineno))
             k += 1
 
 
